@@ -529,10 +529,30 @@ func c02TokenLen(e *Env, sums map[string]core.Summary) {
 		n, ok := 0, true
 		core.Instrs(f, func(in ssa.Instruction) {
 			s, isS := in.(*ssa.Slice)
-			if !isS || s.High == nil || s.Low != nil {
+			if !isS || s.High == nil {
 				return
 			}
 			if _, isC := core.ConstInt(s.High); isC {
+				return
+			}
+			if s.Low != nil {
+				// the token sliced by absolute offsets: data[k : k+tokenLen] – the length is high − k
+				k, isK := core.ConstInt(s.Low)
+				if !isK || s.Parent() != f {
+					return
+				}
+				n++
+				okTok := b.ValueAtMost(s.High, core.Term{K: 8 + k}, in)
+				if add, isAdd := core.Resolve(s.High).(*ssa.BinOp); !okTok && isAdd && add.Op == token.ADD {
+					for _, pr := range [][2]ssa.Value{{add.X, add.Y}, {add.Y, add.X}} {
+						if c, isC := core.ConstInt(pr[0]); isC && b.ValueAtMost(pr[1], core.Term{K: 8 + k - c}, in) {
+							okTok = true
+						}
+					}
+				}
+				if !okTok {
+					ok = false
+				}
 				return
 			}
 			// the token slice: data[:tokenLen]
